@@ -496,6 +496,25 @@ def check_range_fold(ctx):
               "the joint range covers both input sets", "joint range built from %s" % cp)
 
 
+def check_manual_truncation(ctx):
+    """A manual compaction may cut its input list short ("not too much in one
+    shot") only in a level whose files are disjoint: in level 0 a dropped
+    older file would stay above the newer data that moved down."""
+    f = ctx.fn("ldb_versions_compact_range", VS)
+    g = xgraph(ctx.P, f)
+    cuts = [(b, i, e) for (b, i, e) in f.events("call")
+            if is_call(e, ("ldb_vector_resize", "ldb_vector_pop", "ldb_vector_reset")) and argkey(e, 0) in ("&inputs", "inputs")]
+    ctx.require(len(cuts) >= 1, "ldb_versions_compact_range: input truncation not found")
+    for b, i, e in cuts:
+        atoms = g.must_at(b, i)
+        ok = holds(atoms, (">", "level", 0)) or holds(atoms, (">=", "level", 1)) or holds(atoms, ("!=", "level", "0")) or \
+            holds(atoms, ("==", "inputs.length", "0"))
+        ctx.check(ok, "T2-level0-closure", "manual-truncation@%s" % e["l"].split(":")[1], f.name, site(f, e),
+                  "the input list of a manual compaction is shortened only above level 0",
+                  "level-0 inputs of a manual compaction can be truncated (an older overlapping file stays behind); facts %s"
+                  % fmt_atoms(atoms))
+
+
 def check_pick_level0_closure(ctx):
     """Every automatically picked level-0 compaction (size- or seek-triggered)
     takes the transitive closure of overlapping level-0 files before its
@@ -677,6 +696,7 @@ def check(ctx):
     check_compaction_drop(ctx)
     check_inputs(ctx)
     check_level0_closure(ctx)
+    check_manual_truncation(ctx)
     check_cache_keys(ctx)
     check_trivial_move(ctx)
     check_table_get(ctx)
